@@ -476,7 +476,42 @@ TrMkOp == IsEv("mk.op") /\ LET ev == T[l]  nm == ev.name IN
 MaskedNext == TrMwOp \/ TrMsOp \/ TrMkOp
 
 -----------------------------------------------------------------------------
-Next == TrReset \/ PermNext \/ SpongeNext \/ AeadNext \/ AeadIncNext \/ KdfNext \/ IsapNext \/ PrngNext \/ MiscNext \/ ExtraNext \/ BaNext \/ MaskedNext
+(* C19: the command-line tools.  Events are whole scenarios executed on    *)
+(* the real binaries (tools/toolrun.py); the verdicts are the claims R, T, *)
+(* F of SysTools.tla applied to what was observed: exit statuses,          *)
+(* existence of the output file, equality of the round trip.               *)
+CryptOverhead == 28 + 52 + 16          \* header, encrypted key block, tag
+TrToolCrypt == IsEv("tool.crypt") /\ LET ev == T[l]  w == ev.what
+      disturbed == ev.tripped = 1 /\ ev.fault.kind # "eintr" IN
+  CASE w = "roundtrip" \/ (w \in {"fault_enc", "fault_dec"} /\ ~disturbed) ->
+         \* R (and I: an interrupted call alone must not make the tool fail)
+         Step(objs, <<0, 1, ev.size + CryptOverhead, 0, 1, 1>>, <<ev.exit_enc, ev.enc_exists, ev.enc_size, ev.exit_dec, ev.dec_exists, ev.same>>)
+    [] w \in {"wrongpw", "flip", "trunc", "extend"} ->
+         \* T: rejected with a non-zero exit status and no output file left behind
+         Step(objs, <<0, TRUE, 0>>, <<ev.exit_enc, ev.exit_dec # 0, ev.dec_exists>>)
+    [] w = "fault_enc" /\ disturbed ->
+         \* F: non-zero exit and no (partial) output file
+         Step(objs, <<TRUE, 0>>, <<ev.exit_enc # 0, ev.enc_exists>>)
+    [] w = "fault_dec" /\ disturbed ->
+         Step(objs, <<0, TRUE, 0>>, <<ev.exit_enc, ev.exit_dec # 0, ev.dec_exists>>)
+\* -g: a fresh 40-character key file, or (source / write failure) a non-zero exit and no file
+TrToolGenKey == IsEv("tool.genkey") /\ LET ev == T[l]  disturbed == ev.tripped = 1 /\ ev.fault.kind # "eintr" IN
+  IF disturbed THEN Step(objs, <<TRUE, 0>>, <<ev.exit # 0, ev.exists>>)
+  ELSE Step(objs, <<0, 1, 1>>, <<ev.exit, ev.exists, ev.wellformed>>)
+TrToolSum == IsEv("tool.sum") /\ LET ev == T[l]  m == ev.content
+      d == CASE ev.alg = "h" -> Hash(m) [] ev.alg = "a" -> Hasha(m) [] ev.alg = "x" -> Xof(m, 32) [] ev.alg = "y" -> Xofa(m, 32) IN
+  Step(objs, <<d, 1, 0>>, <<ev.digest, ev.format_ok, ev.exit>>)
+\* check mode: OK exactly for unmodified files; non-zero exit unless every line is good and OK
+TrToolSumCheck == IsEv("tool.sumcheck") /\ LET ev == T[l]
+      allgood == ev.nbad = 0 /\ \A i \in DOMAIN ev.files : ev.files[i].changed = 0 IN
+  Step(objs, <<0, [i \in DOMAIN ev.files |-> ev.files[i].changed = 0], allgood>>,
+             <<ev.gen_exit, [i \in DOMAIN ev.files |-> ev.files[i].reported = "OK"], ev.exit = 0>>)
+\* C12: any argument vector - no signal, no sanitizer report
+TrToolArgs == IsEv("tool.args") /\ LET ev == T[l] IN Step(objs, <<0, 0>>, <<ev.signaled, ev.sanitizer>>)
+ToolNext == TrToolCrypt \/ TrToolGenKey \/ TrToolSum \/ TrToolSumCheck \/ TrToolArgs
+
+-----------------------------------------------------------------------------
+Next == TrReset \/ PermNext \/ SpongeNext \/ AeadNext \/ AeadIncNext \/ KdfNext \/ IsapNext \/ PrngNext \/ MiscNext \/ ExtraNext \/ BaNext \/ MaskedNext \/ ToolNext
 
 Spec == Init /\ [][Next]_vars
 
